@@ -247,7 +247,7 @@ def _via_helper(kind: str, value: Any, offset: Any = None) -> ScheduledTask:
     src = _CaptureSource()
     k = AsyncKicker("t", _HELPER_BROKER[0], {})
     if kind == "cron":
-        mi, ho, dom, mon, dow = value.split(" ")
+        mi, ho, dom, mon, dow = (int(f) if f.isdigit() else f for f in value.split(" "))  # plain numbers as ints
         spec = CronSpec(minutes=mi, hours=ho, days=dom, months=mon, weekdays=dow, offset=offset)
         coro = k.schedule_by_cron(src, spec)  # type: ignore[arg-type]
     else:
@@ -452,6 +452,29 @@ def mk_time(us: int, tzspec: Any) -> datetime:
     return utc.astimezone(pytz.timezone(arg))
 
 
+def fall_back_transitions(zone: str) -> List[Tuple[int, int]]:
+    """(transition instant us, size of the repeated interval us) for offset decreases of the zone."""
+    out = []
+    z = zi(zone)
+    for day in transitions(zone):
+        lo, hi = day, day + 86400 * 10 ** 6
+        o_lo = (EPOCH + lo * US).astimezone(z).utcoffset()
+        o_hi = (EPOCH + hi * US).astimezone(z).utcoffset()
+        if o_lo is None or o_hi is None or o_hi >= o_lo:
+            continue
+        while hi - lo > 1:
+            mid = (lo + hi) // 2
+            if (EPOCH + mid * US).astimezone(z).utcoffset() == o_lo:
+                lo = mid
+            else:
+                hi = mid
+        out.append((hi, int((o_lo - o_hi).total_seconds() * 10 ** 6)))
+    return out
+
+
+_FB: Dict[str, List[Tuple[int, int]]] = {}
+
+
 class C14(Check):
     pid = "C14"
     rule = ("Case = (now with microsecond resolution, target time T = now + delta, T naive (=UTC) / UTC / fixed "
@@ -471,6 +494,41 @@ class C14(Check):
         return {"individual_evaluations": merged["events"].get("get_task_delay", 0),
                 "note": "evaluations / distinct_nontrivial count batches of 500 (now, T, zone) triples; "
                         "individual_evaluations counts get_task_delay() calls judged"}
+
+    def _fold_pairs(self, cr: CaseResult, rng: random.Random) -> None:
+        """Targets inside a repeated hour (end of DST): the same wall-clock time with fold=0 and fold=1 are two
+        different instants; both are evaluated back to back, in both orders."""
+        for _ in range(6):
+            zone = rng.choice(["Europe/Berlin", "America/New_York", "Australia/Lord_Howe", "America/St_Johns", "Europe/London"])
+            if zone not in _FB:
+                _FB[zone] = fall_back_transitions(zone)
+            if not _FB[zone]:
+                continue
+            t_tr, width = rng.choice(_FB[zone])
+            inside = rng.randint(1, width - 1)
+            first, second = t_tr - width + inside, t_tr + inside  # same wall time, fold 0 / fold 1
+            order = [first, second] if rng.random() < 0.5 else [second, first]
+            for T in order:
+                tt = (EPOCH + T * US).astimezone(zi(zone))
+                for now in (T - rng.choice([5, 20, 40]) * 10 ** 6 - rng.randint(0, 999_999), T + rng.randint(0, 10 ** 6)):
+                    task = ScheduledTask(task_name="t", labels={}, args=[], kwargs={}, time=tt)
+                    Clock.us = now
+                    try:
+                        got = run_mod.get_task_delay(task)
+                    except Exception as exc:  # noqa: BLE001
+                        got = f"raised {type(exc).__name__}"
+                    cr.events["get_task_delay"] += 1
+                    cr.counters["fold_pair_evaluations"] += 1
+                    B = now - now % 60_000_000 + 60_000_000
+                    desc = f"now={(EPOCH + now * US).isoformat()} T={tt.isoformat()} fold={tt.fold} ({zone}) -> {got!r}"
+                    if T <= now:
+                        if got != 0 or isinstance(got, bool):
+                            cr.violations.append(Violation("past-not-immediate", desc))
+                    elif T > B + 1_000_000:
+                        if got is not None:
+                            cr.violations.append(Violation("beyond-horizon-scheduled", desc))
+                    elif type(got) is not int or not (T <= now + got * 1_000_000 < T + 1_000_000):
+                        cr.violations.append(Violation("delay-wrong-in-repeated-hour", desc))
 
     def cases(self, rng: random.Random, tier: str, shard: int, nshards: int) -> Iterator[Any]:
         while True:
@@ -511,6 +569,11 @@ class C14(Check):
             if rng.random() < 0.05:
                 task = _via_helper("time", tt)
                 cr.counters["built_via_schedule_by_time"] += 1
+            elif rng.random() < 0.15:
+                # a cron_offset on a one-shot schedule has no meaning for its target time
+                task = ScheduledTask(task_name="t", labels={}, args=[], kwargs={}, time=tt,
+                                     cron_offset=rng.choice([timedelta(hours=3), timedelta(hours=-2, minutes=-30), "Asia/Kolkata"]))
+                cr.counters["oneshot_with_cron_offset"] += 1
             else:
                 task = ScheduledTask(task_name="t", labels={}, args=[], kwargs={}, time=tt)
             Clock.us = now
@@ -544,6 +607,7 @@ class C14(Check):
             if abs(T - now) <= 62 * 1_000_000:
                 cr.nontrivial = True
                 sigs.append((now, T, tzs if not isinstance(tzs, tuple) else tzs[0]))
+        self._fold_pairs(cr, rng)
         cr.sig = jhash(sigs)
         cr.trace = {"examples": [(EPOCH + a * US).isoformat() + " / " + (EPOCH + b * US).isoformat() + f" / {c}" for a, b, c in sigs[:3]]}
         return cr
